@@ -162,9 +162,19 @@ def run_race(c):
     return r
 
 
+def run_growth_lightclient(c, tier):
+    """Spec growth beyond the listed properties (DESIGN.md 3.7 (5)): LightClient.tla, the light-client protocol server on
+    top of MMR.tla (blocks / transactions / last-state proofs with difficulty sampling), bound to the real protocol
+    components (checks/g_lightclient.py, harness g_lightclient).  Numbers land in coverage["growth_lightclient"]."""
+    import g_lightclient
+    g_lightclient.run_growth_lightclient(c, tier)
+
+
 def run(tier):
     c = V.Check(PID, "model_checking", tier)
     quick = tier == "quick"
+    gex = cf.ThreadPoolExecutor(max_workers=1)                   # growth (light-client server): next to the other phases
+    gfut = gex.submit(run_growth_lightclient, c, tier)
     c.rule = ("cases = histories (arrival sequences of blocks on any branch with work 1|3 and honest|flawed commitments, bodies over a "
               "transaction universe) delivered to a real node with the real filter builder; after every arrival roots, stored "
               "positions, extensions, proofs and filters are compared with the model's main chain; non-trivial = the expected main "
@@ -266,12 +276,18 @@ def run(tier):
     miss = [k for k, v in need.items() if tot.get(k, 0) < v]
     if miss:
         raise V.ToolError("vacuous replay: %s (%s)" % (miss, tot))
+    gfut.result()
+    gex.shutdown()
     return c.finish()
 
 
 def replay(path, tier):
     c = V.Check(PID, "model_checking", tier)
     p = json.load(open(path))["payload"]
+    if p["kind"].startswith("growth_lightclient"):
+        import g_lightclient
+        g_lightclient.replay(c, p, tier)
+        return 1 if c.violations else 0
     if p["kind"] == "model":
         res = V.tlc(PID, p["module"], p["cfg"], workers=4)
         if res["violated"]:
